@@ -430,7 +430,7 @@ func (e *env) registeredMethods() {
 	must(err)
 	srv := grpc.NewServer()
 	go func() { _ = server.ServeGRPC(l, srv, false, false, true, 1<<20, dc, silent, silent) }()
-	deadline := time.Now().Add(10 * time.Second)
+	deadline := time.Now().Add(60 * time.Second)
 	for {
 		info := srv.GetServiceInfo()
 		if _, ok := info["grpc.health.v1.Health"]; ok { // registered last
@@ -557,7 +557,7 @@ func (e *env) startServer(c config, tag string) (*srvProc, error) {
 		cleanupMu.Unlock()
 		exited := make(chan error, 1)
 		go func() { exited <- p.cmd.Wait() }()
-		deadline := time.Now().Add(20 * time.Second)
+		deadline := time.Now().Add(90 * time.Second)
 		ready := 0
 		for ready < 2 && time.Now().Before(deadline) {
 			select {
@@ -701,7 +701,7 @@ func (e *env) runConfig(c config, tag string) {
 		if pc.kind != "plain" {
 			tr.TLSClientConfig = e.clientTLS(pc)
 		}
-		return &http.Client{Transport: tr, Timeout: 10 * time.Second}
+		return &http.Client{Transport: tr, Timeout: 60 * time.Second}
 	}
 	do := func(cl *http.Client, b bcred, pc pcred, method, path string, body []byte) (int, string, error) {
 		u := base + path
@@ -849,7 +849,7 @@ func (e *env) runConfig(c config, tag string) {
 		_, acHash := blobFor("grpc ac put " + ctag)
 		obs := make([]byte, len(e.methods))
 		for i, m := range e.methods {
-			ctx, cancel := context.WithTimeout(context.Background(), 10*time.Second)
+			ctx, cancel := context.WithTimeout(context.Background(), 60*time.Second)
 			if b.authz != nil {
 				ctx = metadata.AppendToOutgoingContext(ctx, "authorization", *b.authz)
 			}
